@@ -101,7 +101,8 @@ def run_c07(res, tier, seed):
     wss += [variant_label_workspace(rng) for _ in range(4 if tier == "quick" else 40)]
     from p_refs import lookalike_workspace
     wss += [lookalike_workspace(rng) for _ in range(4 if tier == "quick" else 40)]
-    from p_refs import rebind_workspace
+    from p_refs import rebind_workspace, local_like_module_workspace
+    wss += [local_like_module_workspace(rng) for _ in range(3 if tier == "quick" else 30)]
     wss += [rebind_workspace(rng) for _ in range(3 if tier == "quick" else 30)]
     from p_refs import run_expected_groups
     # the recorded findings' own inputs (workspace + the rename that shows it), replayed on every run
